@@ -540,8 +540,12 @@ func runMonitors(prop, dir string) {
 		script, trace := so.Text(), st.Text()
 		n++
 		m.script = script
-		if strings.HasPrefix(script, "rrt ") || strings.HasPrefix(script, "ort ") || strings.HasPrefix(script, "swrt ") || strings.HasPrefix(script, "crt ") {
-			if strings.HasPrefix(script, "crt ") {
+		if strings.HasPrefix(script, "rrt ") || strings.HasPrefix(script, "ort ") || strings.HasPrefix(script, "swrt ") || strings.HasPrefix(script, "crt ") || strings.HasPrefix(script, "rcrt ") || strings.HasPrefix(script, "lrt ") {
+			if strings.HasPrefix(script, "lrt ") {
+				nobs += m.lrt(script, trace)
+			} else if strings.HasPrefix(script, "rcrt ") {
+				nobs += m.rcrt(script, trace)
+			} else if strings.HasPrefix(script, "crt ") {
 				nobs += m.crt(script, trace)
 			} else if strings.HasPrefix(script, "rrt ") {
 				nobs += m.rrt(script, trace)
